@@ -29,6 +29,14 @@ ALLOWED_AXIOMS = {
 }
 
 
+def _limit_mem():
+    """children (coqc / make) may not exceed MEM_LIMIT bytes of address space: a runaway proof search must
+    die instead of taking the sandbox down"""
+    import resource
+    lim = int(os.environ.get("VERIF_COQ_MEM", str(12 * 1024 ** 3)))
+    resource.setrlimit(resource.RLIMIT_AS, (lim, lim))
+
+
 def goenv():
     e = dict(os.environ)
     e["GOFLAGS"] = "-mod=mod"
@@ -161,9 +169,11 @@ COQ_ARGS = ["-Q", "theories", "Synnax", "-w",
             "-notation-overridden,-ambiguous-paths,-deprecated-instance-without-locality,-deprecated-hint-without-locality,-future-coercion-class-field"]
 
 
-def coq_make(timeout=3000, targets=None):
+def coq_make(timeout=None, targets=None):
     """Full .vo build (incremental) of the whole development (targets=None) or of the given .vo
     targets and everything they depend on. Returns (ok, log)."""
+    if timeout is None:
+        timeout = 1200 if targets else 7200
     with Lock("coqmake"):
         files = coq_project_files()
         proj = "-Q theories Synnax\n" + \
@@ -182,7 +192,7 @@ def coq_make(timeout=3000, targets=None):
                 cmd += list(targets)
             else:
                 cmd += ["-k"]
-            r = subprocess.run(cmd, cwd=COQ, timeout=timeout,
+            r = subprocess.run(cmd, cwd=COQ, timeout=timeout, preexec_fn=_limit_mem,
                                stdout=subprocess.PIPE, stderr=subprocess.STDOUT, text=True)
         except subprocess.TimeoutExpired as ex:
             return False, "make timeout\n" + (ex.stdout or "")
@@ -192,7 +202,7 @@ def coq_make(timeout=3000, targets=None):
 
 def coqc_file(path, timeout=600):
     try:
-        r = subprocess.run(["coqc", *COQ_ARGS, path], cwd=COQ, timeout=timeout,
+        r = subprocess.run(["coqc", *COQ_ARGS, path], cwd=COQ, timeout=timeout, preexec_fn=_limit_mem,
                            stdout=subprocess.PIPE, stderr=subprocess.STDOUT, text=True)
         return r.returncode, r.stdout
     except subprocess.TimeoutExpired as ex:
@@ -356,7 +366,7 @@ def coq_eval_cases(pid, imports, case_type, terms, shard=400, timeout=900, extra
         try:
             r = subprocess.run(["coqc", *COQ_ARGS, "-Q", cdir, "VCases", path], cwd=COQ,
                                timeout=timeout, stdout=subprocess.PIPE, stderr=subprocess.STDOUT,
-                               text=True)
+                               text=True, preexec_fn=_limit_mem)
         except subprocess.TimeoutExpired:
             return si, None, None, "coqc timeout on shard %d" % si
         if r.returncode != 0:
@@ -402,7 +412,7 @@ def coq_print(pid, imports, body, timeout=300):
     with open(path, "w") as fh:
         fh.write(imports + "\nFrom Coq Require Import List NArith ZArith String.\nImport ListNotations.\n" + body + "\n")
     try:
-        r = subprocess.run(["coqc", *COQ_ARGS, path], cwd=COQ, timeout=timeout,
+        r = subprocess.run(["coqc", *COQ_ARGS, path], cwd=COQ, timeout=timeout, preexec_fn=_limit_mem,
                            stdout=subprocess.PIPE, stderr=subprocess.STDOUT, text=True)
         return r.stdout
     except subprocess.TimeoutExpired:
